@@ -21,21 +21,30 @@
 #include "c16_io.h"
 #include "src/export.c"
 
-#ifndef NOPS
 #define NOPS 4
+#ifndef L0
+#define L0 2
+#define L1 1
+#define L2 0
+#define L3 3
 #endif
-#ifndef LMAX
-#define LMAX 6
-#endif
+/* bytes appended by each operation: CONCRETE (grid), so that every offset, capacity and allocation size is concrete
+   on every path (symbolic-length memcpy/realloc does not get through the SAT conversion: measured 10 GB / no result);
+   the KIND of each operation stays symbolic among those that append that many bytes, contents symbolic */
+static const uint8_t OPLEN[4] = { L0, L1, L2, L3 };
+#define MAX2(a, b) ((a) > (b) ? (a) : (b))
+#define LMAX MAX2(MAX2(L0, L1), MAX2(MAX2(L2, L3), 1))
+#define LSUM (L0 + L1 + L2 + L3)
 #ifndef BUFSZ
 #define BUFSZ 7
 #endif
-#define RMAX (NOPS * LMAX)
+#define RMAX (LSUM > 0 ? LSUM : 1)
 
 enum { K_WRITE, K_PUTC, K_PUTS, K_PUTS_NULL, K_FLUSH, K_DIRECT, K_N };
 
 struct c16_op { uint8_t kind, len; uint8_t data[LMAX + 1]; };
 static struct c16_op OPS[NOPS];
+static char PUTS_SRC[NOPS][LMAX + 1];   /* concrete strings of OPLEN[i] characters (strlen must stay concrete, see above) */
 static int EXP_OK;            /* what the exporter returns when no write failed */
 static int EXP_CALLS;
 static uint8_t REF[RMAX + 1];
@@ -54,7 +63,7 @@ static vbi_bool c16_export(vbi_export *e, vbi_page *pg)
     switch (o->kind) {
     case K_WRITE: r = vbi_export_write(e, o->data, o->len); break;
     case K_PUTC: r = vbi_export_putc(e, o->data[0]); break;
-    case K_PUTS: r = vbi_export_puts(e, (const char *) o->data); break;
+    case K_PUTS: r = vbi_export_puts(e, PUTS_SRC[i]); break;
     case K_PUTS_NULL: r = vbi_export_puts(e, NULL); break;
     case K_FLUSH: r = vbi_export_flush(e); break;
     default:
@@ -85,31 +94,35 @@ static void c16_setup(void)
   unsigned i, j;
   for (i = 0; i < NOPS; i++) {
     struct c16_op *o = &OPS[i];
-    o->kind = in_u8(); o->len = in_u8();
+    /* the kind must append exactly OPLEN[i] bytes: symbolic choice among the kinds that do */
+    static const uint8_t k0[5] = { K_WRITE, K_PUTS, K_PUTS_NULL, K_FLUSH, K_DIRECT };
+    static const uint8_t k1[4] = { K_WRITE, K_PUTC, K_PUTS, K_DIRECT };
+    static const uint8_t kn[3] = { K_WRITE, K_PUTS, K_DIRECT };
+    uint8_t sel = in_u8();
+    o->len = OPLEN[i];
+    o->kind = (o->len == 0) ? k0[sel % 5] : (o->len == 1) ? k1[sel % 4] : kn[sel % 3];
+#ifdef KINDS
+    /* kinds fixed by the grid: KINDS is a 4-digit decimal number, digit i (most significant first) = index into the
+       list of kinds that append OPLEN[i] bytes */
+    {
+      static const unsigned div[4] = { 1000, 100, 10, 1 };
+      unsigned dg = (KINDS / div[i]) % 10;
+      o->kind = (o->len == 0) ? k0[dg % 5] : (o->len == 1) ? k1[dg % 4] : kn[dg % 3];
+    }
+#endif
     in_bytes(o->data, LMAX);
     o->data[LMAX] = 0;
-    V_ASSUME(o->kind < K_N && o->len <= LMAX);
-    if (o->kind == K_PUTS) {
-      for (j = 0; j < LMAX; j++) {
-        if (j < o->len) V_ASSUME(o->data[j] != 0);
-        else o->data[j] = 0;
-      }
-    }
+    for (j = 0; j < LMAX; j++) PUTS_SRC[i][j] = (j < o->len) ? (char) ('a' + 7 * i + j) : 0;
+    PUTS_SRC[i][LMAX] = 0;
   }
   EXP_OK = in_bool();
   /* the reference byte sequence: an independent reading of "what the module emitted" */
   TOTAL = 0;
   for (i = 0; i < NOPS; i++) {
     struct c16_op *o = &OPS[i];
-    unsigned n = 0;
-    switch (o->kind) {
-    case K_WRITE: case K_PUTS: case K_DIRECT: n = o->len; break;
-    case K_PUTC: n = 1; break;
-    default: n = 0; break;
-    }
     for (j = 0; j < LMAX; j++)
-      if (j < n) REF[TOTAL + j] = o->data[j];
-    TOTAL += n;
+      if (j < o->len) REF[TOTAL + j] = (o->kind == K_PUTS) ? (uint8_t) PUTS_SRC[i][j] : o->data[j];
+    TOTAL += o->len;
   }
   memset(&E, 0, sizeof E);
   E._class = &c16_class;
@@ -175,7 +188,7 @@ static void c16_io_setup(void)
   memset(&C16IO, 0, sizeof C16IO);
   C16IO.fault_call = in_u8(); C16IO.fault_kind = in_u8(); C16IO.fault_part = in_u8(); C16IO.zero_repeat = in_u8();
   C16IO.open_eintr = in_u8(); C16IO.open_fail = in_bool(); C16IO.close_fail = in_bool(); C16IO.stat_regular = in_bool();
-  V_ASSUME(C16IO.fault_kind <= 2 && C16IO.zero_repeat <= 12 && C16IO.open_eintr <= 11);
+  C16IO.fault_kind %= 3; C16IO.zero_repeat %= 13; C16IO.open_eintr %= 12;
   C16IO.fp = c16_stream_object;
 }
 
